@@ -141,6 +141,19 @@ def run(ctx):
                     rets = [fmt(ir.unwrap(x["expr"].get("e"))) for _, _, x in g.roots() if x["expr"].get("k") == "return"]
                     if rets == [kind_maps[k]]:
                         getter = g
+        if getter is None:
+            # the group accessor taken as a pointer to member and called through it (`(g.*get)()` inside a shared helper)
+            for _, _, e in cf.roots():
+                for n in walk(e["expr"]):
+                    if n.get("k") == "call" and n.get("ptrmem") and isinstance(n.get("fn"), dict):
+                        u = ir.as_unop(ir.unwrap(n["fn"]))
+                        tgt = ir.unwrap(u[1]) if u and u[0] == "&" else None
+                        if isinstance(tgt, dict) and tgt.get("k") == "ref" and tgt.get("decl", "").startswith("fn:"):
+                            g = prog.fn(tgt["decl"][3:])
+                            if g is not None and g.cls == NS + "group" and g.has_cfg:
+                                rets = [fmt(ir.unwrap(x["expr"].get("e"))) for _, _, x in g.roots() if x["expr"].get("k") == "return"]
+                                if rets == [kind_maps[k]]:
+                                    getter = g
         loops_over_groups = any("groups_" in fmt(e["expr"]) for _, _, e in cf.roots())
         ctx.check(getter is not None and loops_over_groups, "R13.4", cf, "collector-reads-own-kind-of-every-group",
                   "%s does not collect %s from every group" % (short(cf.qual), kind_maps[k]), cf)
